@@ -147,6 +147,13 @@ def generate(rng, tier):
                           # keys of a str subclass whose str() is not the key itself (class Key(str, Enum) style)
                           "strsub": rng.random() < 0.4}
     plan["positional"] = rng.choice([0, 0, 1, 2]) if kind == "func" else 0
+    if kind == "func" and plan["options"].get("addition") == "leaf" and rng.random() < 0.3:
+        # def f(p, /, ..., **kwargs: Leaf) called f(v, p=w): Python binds the keyword p into kwargs
+        order_ = [f for f in fields if f["required"]] + [f for f in fields if not f["required"]]
+        f0 = order_[0]
+        if not f0["alias"] and not f0["alias_from"] and any(k == f0["name"] for k, _v in keys):
+            plan["posonly_kw"] = {"name": f0["name"], "value": tdsl.gen_value(rng, ["leaf"], pool, positions, ("x",))}
+            plan["positional"] = max(1, plan["positional"])
     fl = {}
     for path, lk, pid in positions:
         if rng.random() < 0.15:
@@ -278,6 +285,8 @@ def build(plan, dfs, collect):
             params.append(f"{f['name']}: T_{f['name']}")
         else:
             params.append(f"{f['name']}: T_{f['name']} = None")
+    if plan.get("posonly_kw"):
+        params.insert(1, "/")
     if plan.get("untyped_kwargs"):
         params.append("**kwargs")
     if plan["options"].get("addition") == "leaf":
@@ -334,6 +343,8 @@ def _run(plan, dfs, collect):
                         kw.pop(k)
             else:
                 break
+    if plan.get("posonly_kw") and pos:
+        kw[plan["posonly_kw"]["name"]] = tdsl.build_value(plan["posonly_kw"]["value"])
     try:
         return ("ok", _canon(_observe(plan, call(pos, kw))))
     except ParseError as e:
